@@ -72,7 +72,7 @@ func TestPropIngestWorkers(t *testing.T) {
 			Blocks:  rapid.SampledFrom([]int{1, 2, 8, 9, 16, 40, evid.Scale(40, 200)}).Draw(t, "blocks"),
 			Extra:   rapid.SampledFrom([]int{0, 1, 100, 254}).Draw(t, "extra"),
 			Stride:  rapid.SampledFrom([]int{1, 7, 101, 1009}).Draw(t, "stride"),
-			Workers: rapid.SampledFrom([]int{3, 4, 8, 16, 18}).Draw(t, "workers"),
+			Workers: rapid.SampledFrom([]int{3, 4, 2, 8, 16, 18}).Draw(t, "workers"),
 			Spills:  rapid.SampledFrom([]int{0, 0, 2, 5}).Draw(t, "spills"),
 			Yield:   uint64(rapid.IntRange(0, 1000).Draw(t, "yield")),
 			Reps:    evid.Scale(2, 4),
